@@ -244,8 +244,10 @@ func ctrlWrap(body string) string {
 	return "\t\tfunc() {\n\t\t\tfor k := int32(0); k < 3; k++ {\n\t\t\t\ta, b := k, 2-k\n" + body + "\t\t\t\tprintln(\"e\", a, b)\n\t\t\t}\n\t\t}()"
 }
 
-// FamCtrl builds the family. quick: at depth 2 the outer template takes one variant per family
-// and loop bound 3 only (the inner one takes all variants); thorough: all variants at both levels.
+// FamCtrl builds the family. quick: depth 1 with every variant (all conditions, loop bounds
+// {0,1,3}, default positions); at depth 2 one variant per template family at both levels (loop
+// bound 3) and (first outer hole x every inner hole) + (every outer hole x first inner hole);
+// thorough: every variant and every hole at both levels.
 func FamCtrl(thorough bool) Family {
 	f := Family{Name: "ctrl"}
 	ts := ctrlTemplates()
@@ -301,10 +303,17 @@ func FamCtrl(thorough bool) Family {
 			seenOuter[o.fam] = true
 		}
 		for oh := 0; oh < o.nh; oh++ {
+			seenInner := map[string]bool{}
 			for ii := range ts {
 				in := &ts[ii]
 				if in.leafOnly {
 					continue
+				}
+				if !thorough {
+					if seenInner[in.fam] {
+						continue
+					}
+					seenInner[in.fam] = true
 				}
 				for ih := 0; ih < in.nh; ih++ {
 					if !thorough && ih > 0 && oh > 0 {
